@@ -35,7 +35,7 @@ var benignCorpora = []string{"refactors", "refactors2", "refactors3", "refactors
 type corpusResult struct {
 	SeedsTried, SeedsCaught, SeedsSkipped    int
 	BenignTried, BenignSilent, BenignSkipped int
-	Weak, Noisy                              []string
+	Weak, Noisy, KnownNoisy                  []string
 }
 
 // seedExpectations: seed name -> property -> rule ids expected to fire.
@@ -146,6 +146,29 @@ func runCorpus(id, repo, verif string, baseline []string) *corpusResult {
 				return
 			}
 			res.BenignTried++
+			if len(fired) > 0 {
+				parts := strings.SplitN(j.name, "/", 2)
+				if len(parts) == 2 {
+					known := knownNoisy(verif, parts[0])[parts[1]]
+					var rest []string
+					for _, k := range fired {
+						isKnown := false
+						for _, r := range known {
+							if strings.HasPrefix(k, r+"|") || k == r {
+								isKnown = true
+							}
+						}
+						if !isKnown {
+							rest = append(rest, k)
+						}
+					}
+					if len(rest) == 0 {
+						res.KnownNoisy = append(res.KnownNoisy, j.name)
+						return
+					}
+					fired = rest
+				}
+			}
 			if len(fired) == 0 {
 				res.BenignSilent++
 			} else {
@@ -157,6 +180,19 @@ func runCorpus(id, repo, verif string, baseline []string) *corpusResult {
 	sort.Strings(res.Weak)
 	sort.Strings(res.Noisy)
 	return res
+}
+
+// knownNoisy: <corpus>/KNOWN-NOISY.json lists, per patch directory, the rule
+// ids that are known to alarm on that behaviour-preserving patch (open false
+// alarms, documented in DESIGN.md §9.3); they are reported as such instead of
+// as new CHECKER-NOISY findings, any other rule firing on the patch still is.
+func knownNoisy(verif, corpus string) map[string][]string {
+	m := map[string][]string{}
+	b, err := os.ReadFile(filepath.Join(verif, corpus, "KNOWN-NOISY.json"))
+	if err == nil {
+		json.Unmarshal(b, &m)
+	}
+	return m
 }
 
 // seedBase returns the patch a seed was made on top of (meta.json "base":
